@@ -121,12 +121,13 @@ def exec_SP(t):
             # a 2-D rendering is a list of per-row string arrays: it is fed back as it is, as one string array, or as nested lists
             k = (len(codes) + n + codes[-1]) % 3
             r = r if k == 0 else np.array(r) if k == 1 else np.array(r).tolist()
+        okw = {'overflow': 'wrap'} if (n + f + codes[0]) % 2 else {}     # (a destination configured to wrap restores an in-range code all the same)
         if route == 'ctor':
-            y = Fxp(r, s, n, f, raw=raw)
+            y = Fxp(r, s, n, f, raw=raw, **okw)
         elif route == 'frombin_fn':
             y = fxpmath.from_bin(r, signed=s, n_word=n, n_frac=f, raw=raw)
         else:
-            y = Fxp(None if shape == 0 else np.zeros_like(np.array(codes, dtype=object), dtype=int), s, n, f)
+            y = Fxp(None if shape == 0 else np.zeros_like(np.array(codes, dtype=object), dtype=int), s, n, f, **okw)
             if (len(codes) + n + f + codes[0]) % 3 == 0 and n <= 60:
                 # a destination with a past (content-determined): it has parsed the very same string(s) before, while it had another
                 # fraction length; what a string means is decided by the format the object has when the string is stored
@@ -191,7 +192,7 @@ def generate(tier, rng):
                             yield 'SP %s %s %s 0 %s %s' % (rng.choice(['bin', 'hex']), rng.choice(['value', 'raw']), rng.choice(['ctor', 'setval']), fm(s, n, f), L([c]))
     for _ in range(2500 if tier == 'quick' else 60000):
         s = rng.random() < 0.5
-        n = rng.choice([2, 7, 8, 9, 12, 15, 16, 17, 31, 32, 33, 52, 53, 63, 64, 65, 72, 100, 127, 128, 129, 200, 255, 256] + [rng.randint(2, 256)])
+        n = rng.choice([2, 7, 8, 9, 12, 15, 16, 17, 31, 32, 33, 52, 53, 55, 56, 59, 62, 63, 64, 65, 72, 100, 127, 128, 129, 200, 255, 256] + [rng.randint(2, 256)])
         f = rng.choice([0, 1, n // 2, n - 1, n, rng.randint(0, n)])
         shape = rng.choice([0, 0, 1, 2, 3, 4])     # 3: transposed (column-major) 2-D history, 4: column-major constructor input
         k = 1 if shape == 0 else (rng.choice([2, 3]) if shape == 1 else rng.choice([4, 6]))
